@@ -56,6 +56,39 @@ def pure_scan(model, R, rule, funcs):
     return n
 
 
+# forward kernels whose FIRST result is new storage (may-alias analysis on the tree the table was written against; the view kernels - slice, unbind, squeeze, unsqueeze,
+# reshape, movedim, transpose, unfold_dim - are the only ones that may hand back the operand's storage, as PyTorch does)
+FRESH_RESULT = ['add_forward', 'mul_forward', 'matmul_forward', 'addmm_forward', 'pow_forward', 'rpow_forward', 'neg_forward', 'concat_forward', 'stack_forward', 'clone_forward',
+                'exp_forward', 'log_forward', 'sqrt_forward', 'sum_forward', 'mean_forward', 'max_forward', 'min_forward', 'relu_forward', 'leaky_relu_forward', 'selu_forward',
+                'tanh_forward', 'sigmoid_forward', 'softmax_forward', 'log_softmax_forward', 'mse_loss_forward', 'nll_loss_forward', 'bce_loss_forward',
+                'bce_with_logits_loss_forward', 'cross_entropy_loss_forward', 'max_pool1d_forward', 'avg_pool1d_forward', 'max_pool2d_forward', 'avg_pool2d_forward',
+                'conv1d_forward', 'conv2d_forward', 'batch_norm_forward']
+
+
+def check_result_fresh(model, R):
+    """the result of a computing (non-view) forward kernel never shares storage with an operand: a later documented in-place call on the operand (optimizer step,
+    initialiser, zeroing) would silently change the result, and vice versa"""
+    from sa.absint import Tup
+    from sa.domains.alias import FRESH
+    R.rule('C11.RESULT-FRESH', 'the first result of every computing forward kernel is new storage on every path (may-alias abstract interpretation); only the view kernels may '
+                               'return the operand\'s storage', floor=len(FRESH_RESULT) - 2)
+    for name in FRESH_RESULT:
+        f = model.funcs.get('synapgrad.cpu_ops.' + name)
+        if f is None:
+            R.incomplete_at('C11.RESULT-FRESH', 'synapgrad.cpu_ops.' + name, 'kernel not found')
+            continue
+        try:
+            I = Interp(model, f, Alias())
+            r = I.run()
+        except Incomplete as e:
+            R.incomplete_at('C11.RESULT-FRESH', f.qualname, str(e))
+            continue
+        items = r.items if isinstance(r, Tup) else [r]
+        c = I.domain.c(items[0]) if items else FRESH
+        R.ob('C11.RESULT-FRESH', f.qualname, 'result storage: %s' % ('fresh' if c == FRESH else 'may alias %s' % sorted(c)), c == FRESH,
+             'on some path the kernel returns (a view of) its operand %s: the result tensor then shares memory with the operand' % (sorted(c) if c != FRESH else ''), f.loc)
+
+
 def check(model, R, tier):
     ops, problems = opcat.catalogue(model)
     for q, why in problems:
@@ -65,6 +98,7 @@ def check(model, R, tier):
     R.rule('C11.KERNEL-PURE', 'no kernel of cpu_ops.py / conv_tools.py performs an in-place effect on a value that may alias one of its parameters (may-alias abstract interpretation, '
                               'interprocedural through repo callees)', floor=95)
     pure_scan(model, R, 'C11.KERNEL-PURE', kfuncs)
+    check_result_fresh(model, R)
     R.analysed['kernels'] = len(kfuncs)
     # positive control: the rule must fire on a fixture with an in-place update of a parameter and of a view of a parameter
     fx = model.add_fixture_module('synapgrad._fixture_c11', FIXTURE)
